@@ -694,7 +694,7 @@ func (m *LexModel) Call(mc *Machine, st *State, call ssa.CallInstruction, callee
 	if full == "utils.ConvertBanglaDigitsToASCII" {
 		return []Outcome{{Result: Sym("ConvertBanglaDigitsToASCII(" + args[0].String() + ")")}}, true
 	}
-	if full == "token.NewToken" {
+	if _, isCtor := tokenConstructors(m.p)[full]; isCtor {
 		return []Outcome{{Result: Sym("NewToken(" + strings.Join(argStrings(args), ",") + ")")}}, true
 	}
 	return nil, false // inline (scanner helpers: stringLiteral, number, identifier, predicates …)
